@@ -65,6 +65,36 @@ def is_restore(prog, f, arg, depth=0):
     return False
 
 
+def is_load_call(prog, f, e, depth=0):
+    """is e a call of Serialize(...) - or of a helper of the proxy all of whose returns are such calls (the result of the load)?"""
+    if e is None or e['k'] != 'CallExpr':
+        return False
+    c = f.callee(e) or {}
+    if c.get('n') == 'Serialize':
+        return True
+    g = prog.funcs.get(c.get('id'))
+    if g is None or depth > 1 or not c.get('repo') or 'KeyValueProxy' not in c.get('q', ''):
+        return False
+    rets = [x for x in g.walk() if x['k'] == 'ReturnStmt']
+    vals = [strip(child(x, 'value')) for x in rets]
+    def ok(v):
+        if v is None:
+            return False
+        if is_load_call(prog, g, v, depth + 1):
+            return True
+        if v['k'] == 'DeclRefExpr':      # a local that is only ever assigned from load calls
+            d = v.get('d')
+            srcs = []
+            for x in g.walk():
+                if x['k'] == 'BinaryOperator' and x.get('op') == '=' and (strip(x['c'][0]) or {}).get('d') == d:
+                    srcs.append(strip(x['c'][1]))
+                if x['k'] == 'DeclStmt' and x.get('decls') and x['decls'][0]['d'] == d and x.get('c'):
+                    srcs.append(strip(x['c'][0]))
+            return bool(srcs) and all(is_load_call(prog, g, s_, depth + 1) for s_ in srcs)
+        return False
+    return bool(vals) and all(ok(v) for v in vals)
+
+
 def check_seek_after_eof(prog, rep, rule):
     """seekg on the cached input stream happens with the error state fully cleared: a final short read sets eofbit AND failbit, and seekg
     fails while failbit is set, so the clear() before it must reset the whole state (no argument / goodbit), not only eofbit."""
@@ -156,8 +186,10 @@ def run(prog, rep):
         for n in f.walk():
             if n['k'] == 'BinaryOperator' and n.get('op') == '=':
                 lhs, rhs = strip(n['c'][0]), strip(n['c'][1])
-                if lhs is not None and lhs['k'] == 'DeclRefExpr' and rhs is not None and rhs['k'] == 'CallExpr' and (f.callee(rhs) or {}).get('n') == 'Serialize':
+                if lhs is not None and lhs['k'] == 'DeclRefExpr' and is_load_call(prog, f, rhs):
                     result_names.add(lhs.get('n'))
+            if n['k'] == 'DeclStmt' and len(n.get('decls') or []) == 1 and n.get('c') and is_load_call(prog, f, strip(n['c'][0])):
+                result_names.add(n['decls'][0]['n'])
     if not result_names:
         raise AnalysisBroken('R3.4: SplitAndSerialize(KeyValue) no longer assigns a local from the Serialize(...) call')
     n34 = 0
@@ -184,9 +216,11 @@ def run(prog, rep):
         has = False
         for n in live_walk(f):
             if n['k'] == 'BinaryOperator' and n.get('op') == '=' and (strip(n['c'][0]) or {}).get('n') in result_names:
-                rhs = strip(n['c'][1])
-                if rhs is not None and rhs['k'] == 'CallExpr' and (f.callee(rhs) or {}).get('n') == 'Serialize':
+                if is_load_call(prog, f, strip(n['c'][1])):
                     has = True
+            if n['k'] == 'DeclStmt' and len(n.get('decls') or []) == 1 and n['decls'][0]['n'] in result_names and n.get('c') \
+                    and is_load_call(prog, f, strip(n['c'][0])):
+                has = True
         if any(d['n'] in result_names for n in f.walk() if n['k'] == 'DeclStmt' for d in n.get('decls', ())):
             rep.touch(f)
             if has:
